@@ -288,6 +288,10 @@ func (H) Execute(x *common.Exec, s any) {
 		return
 	}
 	x.R.GoDaemon("serve", func() { gs.Serve(lis) })
+	defer func() { // let every goroutine of this run end (they are blocked natively, not parked)
+		gs.Stop()
+		lis.Close()
+	}()
 
 	delivered := make([][]string, maxT)
 	appStamp := make([][]int64, maxT)
